@@ -23,9 +23,24 @@ pub const WORDS: &[&str] = &[
     "trail ", "  ", "\u{c0}\u{c9}", "\u{1c6}", "\u{df}", "e\u{301}", "\u{feff}bom", "a\u{0}b", "\\u0041", "\\n", "a,b", "a\nb\r\nc", "x\u{10ffff}",
 ];
 
+/// Strings shaped like the type-prefixed scalars of other Haystack encodings (Haystack 3 JSON
+/// `n:1 kW`, `r:id Dis`, `m:`, `s:text` …): every one-letter prefix a-z, `-`, and a few capitals,
+/// followed by `:` and each of a few payloads. A Str stays a Str whatever it looks like.
+pub fn prefixed_words() -> Vec<String> {
+    let mut v = vec![];
+    let prefixes: Vec<char> = ('a'..='z').chain(['-', 'N', 'M', 'T', 'X', '_']).collect();
+    for c in prefixes {
+        for payload in ["", "1", "-3.5e3 kW", "NaN", "abc Dis", "2021-01-01", "12:00:00", "2021-01-01T00:00:00Z UTC", "1.5,2.5", "Bin:abc", "http://x/y"] {
+            v.push(format!("{c}:{payload}"));
+        }
+    }
+    v
+}
+
 pub fn strings(tier: Tier) -> Vec<String> {
     let mut v = vec![String::new()];
     v.extend(WORDS.iter().map(|w| w.to_string()));
+    v.extend(prefixed_words());
     for &c in CHI {
         v.push(c.to_string());
     }
@@ -53,6 +68,7 @@ pub fn strings(tier: Tier) -> Vec<String> {
 pub fn strings_small() -> Vec<String> {
     let mut v = vec![String::new()];
     v.extend(WORDS.iter().map(|w| w.to_string()));
+    v.extend(prefixed_words().into_iter().step_by(3));
     for &c in CHI {
         v.push(c.to_string());
     }
